@@ -13,6 +13,10 @@ import vf  # noqa: F401
 
 def main():
     corpus = json.load(open(sys.argv[1]))
+    include = None
+    if isinstance(corpus, dict):
+        include = corpus.get("include")
+        corpus = corpus["docs"]
     from multidecoder.json_conversion import tree_to_json
     from multidecoder.multidecoder import Multidecoder
 
@@ -24,7 +28,12 @@ def main():
             o, _ = run_main([], bytes.fromhex(doc["data"]))
             out.append(o.decode("utf-8", "replace"))
     else:
-        md = Multidecoder()
+        if include:
+            from multidecoder.registry import build_registry
+
+            md = Multidecoder(build_registry(include=include))
+        else:
+            md = Multidecoder()
         for doc in corpus:
             data = bytes.fromhex(doc["data"])
             t = md.scan(data) if doc.get("depth") is None else md.scan(data, doc["depth"])
